@@ -184,7 +184,7 @@ pub struct Journey {
 
 /// Beacon the pieces per the specification's chain rule and assemble the header.
 /// `ifbase`: interface numbering as in PathWalk.tla when `spec_labels`, else random.
-pub fn build_authentic(pieces: &[Piece], salt: u64, rng: &mut Rng, spec_labels: bool) -> Journey {
+pub fn build_authentic(pieces: &[Piece], salt: u64, rng: &mut Rng, spec_labels: bool, ts0: u32) -> Journey {
     let total: usize = pieces.iter().map(|p| p.n).sum();
     let mut as_of_hop = Vec::with_capacity(total);
     let mut off = 0usize;
@@ -199,7 +199,7 @@ pub fn build_authentic(pieces: &[Piece], salt: u64, rng: &mut Rng, spec_labels: 
     let mut hop: Vec<HopC> = Vec::new();
     let mut g0 = 0usize;
     for (k, p) in pieces.iter().enumerate() {
-        let ts: u32 = 1_700_000_000 + 1000 * (k as u32 + 1);
+        let ts: u32 = ts0 + 1000 * (k as u32 + 1);
         let segid0: u16 = rng.below(65536) as u16;
         // construction order c = 1..n ; travel position t = c (cd) or n+1-c
         let mut beta = segid0;
@@ -284,7 +284,7 @@ pub fn walk(buf: &mut Vec<u8>, order: &[usize], salt: u64) -> WalkResult {
         };
         let co = CallOut { k: k.clone(), cls: String::new(), act: act.clone(), eif: 0, iif: 0, alert: false, calls: vec![], msg: String::new() };
         res.pv.extend(call_monitors(if i == 0 { Op::IngInt } else { Op::IngExt }, &before, buf, &co));
-        let hp = HdrC::parse(buf).unwrap();
+        let hp = HdrC::parse_or_meta(buf);
         res.steps.push(WalkStep { a: *a, op: opn, k: k.clone(), act: act.clone(), ci: hp.ci, ch: hp.ch });
         if k != "ok" {
             res.outcome = "failed".into();
@@ -316,7 +316,7 @@ pub fn walk(buf: &mut Vec<u8>, order: &[usize], salt: u64) -> WalkResult {
         };
         let co = CallOut { k: k.clone(), cls: String::new(), act: "egress".into(), eif: 0, iif: 0, alert: false, calls: vec![], msg: String::new() };
         res.pv.extend(call_monitors(Op::Egr, &before, buf, &co));
-        let hp = HdrC::parse(buf).unwrap();
+        let hp = HdrC::parse_or_meta(buf);
         res.steps.push(WalkStep { a: *a, op: "egr", k: k.clone(), act: "egress".into(), ci: hp.ci, ch: hp.ch });
         if k != "ok" {
             res.outcome = "failed".into();
@@ -346,7 +346,7 @@ fn cd_class(pieces: &[Piece]) -> String {
 }
 
 /// bit positions (byte offset in the raw header, bit) of an authenticated field
-fn field_bits(h: &HdrC, f: &str, at: usize) -> Vec<(usize, u8)> {
+pub fn field_bits(h: &HdrC, f: &str, at: usize) -> Vec<(usize, u8)> {
     let ninf = h.ninf();
     let hop_off = |g: usize| 4 + 8 * ninf + 12 * (g - 1);
     let inf_off = |k: usize| 4 + 8 * (k - 1);
@@ -375,7 +375,7 @@ pub fn replay_walk(case: &Value) -> Value {
     let owner = case["owner"].as_u64().unwrap_or(0) as usize;
     let mut rng = Rng::new(vh_core::seed_from_env() ^ 0x77);
     let salt = 1;
-    let j = build_authentic(&pieces, salt, &mut rng, true);
+    let j = build_authentic(&pieces, salt, &mut rng, true, 1_700_000_000);
     let fwd: Vec<usize> = (1..=j.nas).collect();
     let back: Vec<usize> = (1..=j.nas).rev().collect();
     let mut pvs = Vec::new();
@@ -392,7 +392,7 @@ pub fn replay_walk(case: &Value) -> Value {
             pvs.push(pv(format!("AuthenticRejected:forward:{cls}"), format!("authentic path (pieces {:?}) was rejected at AS {} going forward ({})", pieces, w1.failed_at, w1.outcome)));
         } else {
             let rv = catch(|| StandardPathView::try_from_mut_slice(&mut buf).unwrap().0.try_reverse().is_ok());
-            let hp = HdrC::parse(&buf).unwrap();
+            let hp = HdrC::parse_or_meta(&buf);
             real.push(json!({"as": j.nas, "op": "rev", "k": if rv == Ok(true) { "ok" } else { "err" }, "act": "none", "ci": hp.ci, "ch": hp.ch}));
             if rv != Ok(true) {
                 pvs.push(pv(format!("AuthenticRejected:reverse:{cls}"), "try_reverse failed on a delivered authentic path"));
